@@ -10,6 +10,7 @@ import (
 	"math/rand"
 	"regexp"
 	"sync"
+	"sync/atomic"
 	"time"
 
 	"github.com/scrapli/scrapligo/transport"
@@ -86,13 +87,17 @@ type Pipe struct {
 	CloseBehaviour string // eof | err | stay | late : what a blocked/later Read does after Close
 	LateOnClose    []byte // "late": what the Read that was under way at Close comes back with, 30 ms later
 	failReadOnce   bool
-	ReuseBuf       bool // Read returns a slice of one long-lived buffer (what it returned before is overwritten by the next read)
-	rbuf           []byte
-	CloseErr       error // returned by Close (which closes all the same): "connection reset by peer" and the like
-	opened         bool
-	closed         bool
-	Closes         int
-	OpenErr        error
+	// Poll: Read does not block: it takes 200 us and returns nothing when nothing is there (a responsive reader)
+	Poll            bool
+	readers         int32
+	CloseDuringRead int
+	ReuseBuf        bool // Read returns a slice of one long-lived buffer (what it returned before is overwritten by the next read)
+	rbuf            []byte
+	CloseErr        error // returned by Close (which closes all the same): "connection reset by peer" and the like
+	opened          bool
+	closed          bool
+	Closes          int
+	OpenErr         error
 
 	RecordTrace bool
 	Trace       []Event
@@ -204,6 +209,10 @@ func (p *Pipe) Close() error {
 	p.mu.Lock()
 	defer p.mu.Unlock()
 
+	if atomic.LoadInt32(&p.readers) > 0 {
+		p.CloseDuringRead++ // only a forced close gets here while a Read is under way (an orderly one waits for the read lock)
+	}
+
 	p.Closes++
 	p.closed = true
 	p.ev("close", nil)
@@ -307,6 +316,14 @@ func (p *Pipe) chunk(n int) int {
 // Read implements transport.Implementation.
 func (p *Pipe) Read(n int) ([]byte, error) {
 	slept := false
+
+	atomic.AddInt32(&p.readers, 1)
+	defer atomic.AddInt32(&p.readers, -1)
+
+	if p.Poll {
+		// a transport that reads with a short deadline: the call takes a moment and comes back empty-handed when nothing is there
+		time.Sleep(200 * time.Microsecond)
+	}
 
 	p.mu.Lock()
 
@@ -421,6 +438,12 @@ func (p *Pipe) Read(n int) ([]byte, error) {
 			p.mu.Unlock()
 
 			return b, nil
+		}
+
+		if p.Poll {
+			p.mu.Unlock()
+
+			return nil, nil
 		}
 
 		p.cond.Wait()
